@@ -8,6 +8,7 @@ mod fmt;
 mod gen;
 mod interpose;
 mod ops;
+mod procsuite;
 mod rng;
 mod tree;
 
@@ -306,10 +307,38 @@ fn main() {
     match cmd.as_str() {
         "probe" => probe(&mut ctx),
         "c15" => c15::suite(&mut ctx),
+        "proc-new" => procsuite::suite_new(&mut ctx),
+        "proc-live" => procsuite::suite_live(&mut ctx, seed, n),
+        "proc-overmount" => {
+            let masks: Vec<u32> = arg_val(&args, "--masks")
+                .map(|s| s.split(',').filter_map(|m| m.parse().ok()).collect())
+                .unwrap_or_else(|| vec![0, 0xfff]);
+            procsuite::suite_overmount(&mut ctx, &masks)
+        }
+        "proc-matrix" => {
+            let label = arg_val(&args, "--label").unwrap_or_else(|| "default".into());
+            procsuite::suite_c08(&mut ctx, &label)
+        }
         "capi-args" => capisuite::suite_capi_args(&mut ctx, args.iter().any(|a| a == "--thorough")),
         "errtable" => {
             let threads: usize = arg_val(&args, "--threads").and_then(|s| s.parse().ok()).unwrap_or(8);
             capisuite::suite_errtable(&mut ctx, seed, n, threads)
+        }
+        "handle-probe" => {
+            // close-on-exec status of the base descriptor of every handle constructor
+            for kind in procsuite::HKind::ALL {
+                match kind.make() {
+                    Ok(Some(h)) => {
+                        let (fd, _, sub, _) = verif::procfs_describe(&h);
+                        println!("{} {} subset={}", kind.name(), procsuite::describe(fd), sub as u8);
+                    }
+                    Ok(None) => {
+                        let (fd, _, sub, _) = verif::procfs_describe(verif::global_procfs());
+                        println!("{} {} subset={}", kind.name(), procsuite::describe(fd), sub as u8);
+                    }
+                    Err(e) => println!("{} error {e}", kind.name()),
+                }
+            }
         }
         "capi-probe" => {
             let r = unsafe { capi::pathrs_inroot_resolve(-1, b"a\0".as_ptr() as *const _) };
